@@ -10,7 +10,7 @@ import copy
 import os
 import sys
 
-from dtsim import fs, resolver
+from dtsim import core, fs, resolver
 from dtsim.core import HarnessError, digest, load_doctrans, sha
 
 KINDS = ("argparse_function", "class", "function")
@@ -140,6 +140,8 @@ def run_op(ns, world, knobs, op, fault=None, record_steps=False, real_kill=False
     """where='fork': run the operation in a forked child (a separate OS process; with fresh=True the child first
     returns the doctrans package to its import-time state, i.e. it is a *new* process).  where='here': run it in this
     process, whose module-level state therefore carries over to the next in-process operation."""
+    if where == "fork" and op.get("hashseed") is not None and knobs.get("processes") == "spawn":
+        return run_spawned(world, knobs, op, fault)
     if where == "fork":
         def child():
             if fresh and _proc is not None:
@@ -163,6 +165,46 @@ def run_op(ns, world, knobs, op, fault=None, record_steps=False, real_kill=False
             report.append([world.rel(k) if k.startswith(world.root + os.sep) else k, bool(v)])
     outcome["report"] = report
     return outcome, sim
+
+
+def run_spawned(world, knobs, op, fault=None):
+    """The operation in a freshly started interpreter (same seams, same simulator) whose PYTHONHASHSEED is op['hashseed']:
+    what a command-line invocation is for a user who has not pinned the hash seed."""
+    import json
+    import pickle
+    import subprocess
+
+    tf = world.root + ".spawn.json"
+    with fs._orig_open(tf, "wt") as f:
+        json.dump({"root": world.root, "knobs": knobs, "op": op, "fault": fault}, f)
+    try:
+        extra = {"PYTHONOPTIMIZE": "1"} if sys.flags.optimize else None
+        p = subprocess.run([core.PYTHON, "-W", "ignore", core.LAUNCHER, "worker", "spawned", tf], env=core.worker_env(hashseed=op["hashseed"], extra=extra),
+                           cwd=core.VERIF, stdout=subprocess.PIPE, stderr=subprocess.PIPE, timeout=120)
+        if p.returncode != 0 or not os.path.exists(tf + ".out"):
+            raise core.HarnessError("spawned interpreter failed (rc=%s): %s" % (p.returncode, p.stderr.decode(errors="replace")[-600:]))
+        with fs._orig_open(tf + ".out", "rb") as f:
+            return pickle.load(f)
+    finally:
+        for x in (tf, tf + ".out"):
+            try:
+                os.remove(x)
+            except OSError:
+                pass
+
+
+def spawned_child(path):
+    """Child side of run_spawned."""
+    import json
+    import pickle
+
+    with fs._orig_open(path) as f:
+        task = json.load(f)
+    ns = setup()
+    world = fs.World(attach=task["root"])
+    out, sim = run_op(ns, world, task["knobs"], task["op"], fault=task["fault"])
+    with fs._orig_open(path + ".out", "wb") as f:
+        pickle.dump((out, fs.SimResult(sim)), f)
 
 
 # ---------------------------------------------------------------------- helpers
@@ -464,6 +506,17 @@ def oracles_sync(op, S0, S1, out, hist, stats):
                 stats["a3"][st.split(":")[0]] = stats["a3"].get(st.split(":")[0], 0) + 1
                 if detail is not None:
                     v.append(viol("C09", "A3-" + st, op, "%s in %s: %s" % (name, f, detail), **common))
+            # C11, last clause, for a function that sync itself wrote from a function: the statements of the truth
+            # that are not part of its interface are in the synchronised function (same short name, both plain functions
+            # or both methods - the case in which a function is a copy of the truth rather than a fresh stub)
+            if (op["truth"] == "function" and kind == "function" and before_bytes_differ(S0, S1, f) and definition_written
+                    and isinstance(truth["node"], ast.FunctionDef)):
+                tname = op["targets"]["function"]["name"]
+                if tname.split(".")[-1] == path[-1] and ("." in tname) == ("." in name):
+                    stats["c11_body_carried_checked"] = stats.get("c11_body_carried_checked", 0) + 1
+                    tb = resolver.body_statements(truth["node"])
+                    if tb and not _subsequence(tb, resolver.body_statements(node)):
+                        v.append(viol("C11", "B-body-not-carried", op, "%s in %s: statements of the truth function that are not part of its interface are missing from the function sync wrote" % (name, f), **common))
         # C11 - conservation of everything else
         before = S0.get(f)
         if before is not None and before != after and not is_truth:
@@ -687,7 +740,8 @@ def _first_diff(a, b):
 
 def op_spec(op):
     # the same invocation, whether it is made through the command line or through the API
-    return {k: v for k, v in op.items() if k not in ("fault", "tag", "via")}
+    # (nor does the hash seed of the interpreter that runs it make it another invocation)
+    return {k: v for k, v in op.items() if k not in ("fault", "tag", "via", "hashseed")}
 
 
 # ----------------------------------------------------------------- sync_properties
@@ -1165,7 +1219,10 @@ def execute(scenario, want_trace=False):
             rec["violations"] = [[x["property"], x["oracle"]] for x in new]
             trace.append(rec)
             violations += new
-            if len(violations) >= scenario.get("max_violations", MAX_VIOLATIONS_PER_RUN):
+            # (violations of other properties than the one this history was generated for do not end it early)
+            focus = scenario.get("focus")
+            if len([x for x in violations if focus is None or x["property"] == focus]) >= scenario.get("max_violations", MAX_VIOLATIONS_PER_RUN) \
+                    or len(violations) >= 10 * scenario.get("max_violations", MAX_VIOLATIONS_PER_RUN):
                 break
     finally:
         world.close()
